@@ -542,12 +542,20 @@ func tamper(d delegation.Delegation, sp *TokSpec) (delegation.Delegation, error)
 	m := *d.Data().Model()
 	switch sp.Tamper {
 	case "aud":
-		m.Aud = sp.TamperTo.DID.Bytes()
+		if string(m.Aud) == string(sp.TamperTo.DID.Bytes()) {
+			m.Aud = m.Iss // already addressed to that principal (e.g. combined with "misaligned"): the change must be a change
+		} else {
+			m.Aud = sp.TamperTo.DID.Bytes()
+		}
 	case "iss":
 		m.Iss = sp.TamperTo.DID.Bytes()
 	case "cap":
 		att := append([]udm.CapabilityModel{}, m.Att...)
 		att[0].With = sp.TamperTo.DID.String()
+		if m.Att[0].With == att[0].With {
+			// the capability already names that resource (e.g. combined with "foreign-resource"): the change must be a change
+			att[0].With += "#tampered"
+		}
 		m.Att = att
 	case "exp":
 		e := farFuture + 1
